@@ -497,6 +497,9 @@ func c17R4(p *Prog, r *Report, e *RaceEngine) {
 					if fieldRemadeBefore(x, typeName(a.X.Type()), st.Field(a.Field).Name()) {
 						return fresh // made afresh earlier in this very call
 					}
+					if fieldHandedOver(x) {
+						return moved // the owner starts over with a new slice before it goes on
+					}
 					where = ownerName(derefType(a.X.Type())) + "." + st.Field(a.Field).Name() + " (loaded at " + p.InstrPos(x) + ")"
 					return view
 				}
